@@ -59,6 +59,9 @@ map_counter = {}
 COLOUR_LENGTHS = [2, 5, 1, 4]
 colour_counter = {}
 layout_counter = {}          # per sampler name: every sampler meets every presentation in turn
+# the element types a caller's REQUEST arrays may have (the values are real numbers whatever their storage)
+REQUEST_DTYPES = ["<f4", "<f2", ">f4", "longdouble", ">f8"]
+CALLER_THREADS = 4
 
 CFG = """SPECIFICATION Spec
 CONSTANTS
@@ -73,6 +76,7 @@ INVARIANT MirrorInv
 INVARIANT ClosedFormInv
 INVARIANT CodeShapeInv
 INVARIANT BoundaryInv
+INVARIANT WideInv
 INVARIANT Emit
 PROPERTY Refines
 CHECK_DEADLOCK FALSE
@@ -82,6 +86,23 @@ CHECK_DEADLOCK FALSE
 def configs(shapes, g, mode, want_far):
     """want_far = wanted whole turns of the far-offset points (the spec's Far() reduces it where 32-bit integers demand)."""
     return [{"v": v, "nx": nx, "ny": ny, "g": g, "mode": mode, "far": want_far} for (nx, ny) in shapes for v in LAYOUTS]
+
+
+def wide_configs(shapes, n_sampled, rng):
+    """Maps too wide / tall to enumerate: the harness names the columns and rows (the ends, the middle, the neighbours of the
+    middle and n_sampled others drawn from rng) whose centres TLC turns into test angles and expected values."""
+    out = []
+    for (nx, ny) in shapes:
+        def pick(n):
+            fixed = {0, 1, 2, n // 4, n // 2 - 1, n // 2, n // 2 + 1, (3 * n) // 4, n - 2, n - 1}
+            some = {rng.randrange(n) for _ in range(min(n, n_sampled))}
+            return sorted(i for i in fixed | some if 0 <= i < n)
+        cols, rows = pick(nx), pick(ny)
+        if len(rows) > 8 and len(cols) > 8:
+            rows = rows[:: max(1, len(rows) // 8)]          # one long axis per table
+        for v in LAYOUTS:
+            out.append({"v": v, "nx": nx, "ny": ny, "g": 1, "mode": "wide", "far": 0, "cols": set(cols), "rows": set(rows)})
+    return out
 
 
 def mc_module(cfgs):
@@ -137,21 +158,164 @@ def grid_renderings(rec):
     return out
 
 
+_arange_cache = {}
+
+
+def arange_map(nx, ny):
+    """data[r, c] = r*nx + c (the last one is kept: the four layouts of one shape come one after the other)"""
+    import numpy as np
+    if (nx, ny) not in _arange_cache:
+        _arange_cache.clear()
+        m = np.arange(nx * ny, dtype=np.int64 if nx * ny < 2 ** 16 else np.uint32).reshape(ny, nx)
+        m.setflags(write=False)
+        _arange_cache[(nx, ny)] = m
+    return _arange_cache[(nx, ny)]
+
+
+def candidates(rec):
+    """cand[a][b] = the admissible arange-map values (1 value off the edges; up to 4 on them, padded by repetition)"""
+    import numpy as np
+    if rec["mode"] == "grid":
+        return np.array([[(c + c[-1:] * 4)[:4] for c in row] for row in rec["cells"]], dtype=np.int64)
+    return np.array(rec["cells"], dtype=np.int64)[..., None]
+
+
+def concurrent_callers(ctx, rec, S, gal_tools, rounds):
+    """ONE sampler object, several callers at the same time.  A sampler is a function of its arguments: whatever it keeps between
+    or during calls, every call must return TLC's value for ITS OWN points.  CALLER_THREADS threads meet at a barrier and then
+    call the same sampler object, each with its own request drawn (ctx.rng) from TLC's table of this configuration; round after
+    round the requests have one shape for all callers, a different shape per caller, or two shapes shared pairwise.  Every
+    answer is compared with TLC's table after the threads have finished (nothing in the verdict depends on how the calls
+    interleaved); a wrong answer is asked again with no other call in flight to tell the two failures apart."""
+    import sys
+    import threading
+    import numpy as np
+    v, nx, ny, g = rec["v"], rec["nx"], rec["ny"], rec["g"]
+    ks, js, lon, lat = angles(rec)
+    cand = candidates(rec)
+    LON, LAT = np.meshgrid(lon, lat)
+    big = nx * ny > 2 ** 16
+    scalar_map = arange_map(nx, ny) if big else np.arange(nx * ny, dtype=np.int64).reshape(ny, nx)
+    maps = [("scalar", scalar_map, (), lambda o: (o.astype(np.int64), np.ones(o.shape, dtype=bool)))]
+    if not big:
+        rgb_map = (3 * scalar_map[..., None] + np.arange(3)).astype(np.int32)
+        maps.append(("RGB", rgb_map, (3,), lambda o: (o.astype(np.int64)[..., 0] // 3,
+                                                     (o[..., 1] == o[..., 0] + 1) & (o[..., 2] == o[..., 0] + 2) & (o[..., 0] % 3 == 0))))
+    case = {"layout": v, "nx": nx, "ny": ny, "g": g, "mode": rec["mode"],
+            "lon_unit": "2*pi/%d" % (4 * nx * g), "lat_unit": "pi/%d" % (4 * ny * g)}
+    routes = [(SAMPLER_OF[v], getattr(S, SAMPLER_OF[v]), LON.reshape(-1), LAT.reshape(-1), cand.reshape(-1, cand.shape[-1]))]
+    if v == "sky":
+        SkyCoord, Galactic, u = gal_tools
+        inner = np.abs(js) != 2 * ny * g
+        if inner.any():
+            icrs = SkyCoord(l=LON[inner] * u.rad, b=LAT[inner] * u.rad, frame=Galactic).icrs
+            routes.append(("plate_carree_galactic_sampler", S.plate_carree_galactic_sampler, icrs.ra.rad.reshape(-1), icrs.dec.rad.reshape(-1),
+                           cand[inner].reshape(-1, cand.shape[-1])))
+    T = CALLER_THREADS
+    n = 0
+
+    def wrong(ans, want, colour, decode, shape):
+        """None if the answer is TLC's for every point, else (number of wrong points, index of the first one, value there)"""
+        if ans[0] != "ok":
+            return (int(np.prod(shape)), 0, None, "raised %r" % (ans[1],))
+        out = np.asarray(ans[1])
+        if out.shape != tuple(shape) + colour:
+            return (int(np.prod(shape)), 0, None, "returned an array of shape %s" % (out.shape,))
+        val, consistent = decode(out)
+        ok = ((val[..., None] == want).any(axis=-1) & consistent).reshape(-1)
+        bad = np.flatnonzero(~ok)
+        if not len(bad):
+            return None
+        return (len(bad), int(bad[0]), int(val.reshape(-1)[bad[0]]), None)
+
+    for name, make, lon_p, lat_p, want_p in routes:
+        nprng = np.random.default_rng(ctx.rng.getrandbits(32))
+        for label, m, colour, decode in maps:
+            f = make(m)                                   # the one sampler object every caller uses
+            plan = []
+            for r in range(rounds):
+                h, w = int(nprng.integers(48, 129)), int(nprng.integers(48, 129))
+                kind = ("the same shape for every caller", "a different shape for every caller", "two shapes, each used by two callers")[r % 3]
+                if r % 3 == 0:
+                    shapes = [(h, w)] * T
+                elif r % 3 == 1:
+                    shapes = [(h + t, w) for t in range(T)]
+                else:
+                    shapes = [(h, w) if t % 2 == 0 else (w + 1, h) for t in range(T)]
+                idx = [nprng.integers(0, lon_p.size, size=sh) for sh in shapes]
+                plan.append((kind, idx, [(lon_p[i], lat_p[i]) for i in idx]))
+            answers = [[None] * rounds for _ in range(T)]
+            barrier = threading.Barrier(T)
+
+            def caller(t):
+                for r in range(rounds):
+                    a, b = plan[r][2][t]
+                    try:
+                        barrier.wait(timeout=60)
+                    except threading.BrokenBarrierError:
+                        pass
+                    try:
+                        answers[t][r] = ("ok", f(a, b))
+                    except Exception as e:  # noqa - judged below
+                        answers[t][r] = ("raised", e)
+            old_int = sys.getswitchinterval()
+            sys.setswitchinterval(1e-5)
+            try:
+                ths = [threading.Thread(target=caller, args=(t,)) for t in range(T)]
+                for th in ths:
+                    th.start()
+                for th in ths:
+                    th.join()
+            finally:
+                sys.setswitchinterval(old_int)
+            n += T * rounds
+            reported = False
+            for r in range(rounds):
+                for t in range(T):
+                    kind, idx, reqs = plan[r]
+                    want = want_p[idx[t]]
+                    w_ = wrong(answers[t][r], want, colour, decode, idx[t].shape)
+                    if w_ is None or reported:
+                        continue
+                    reported = True
+                    a, b = reqs[t]
+                    try:
+                        alone = ("ok", f(a, b))
+                    except Exception as e:  # noqa
+                        alone = ("raised", e)
+                    n += 1
+                    alone_wrong = wrong(alone, want, colour, decode, idx[t].shape)
+                    nbad, first, got, other = w_
+                    lo, la = float(a.reshape(-1)[first]), float(b.reshape(-1)[first])
+                    adm = sorted(set(int(x) for x in want.reshape(-1, want.shape[-1])[first]))
+                    what = other if other else ("%d of its %d points got another pixel, e.g. lon=%.17g lat=%.17g is in %s but the value "
+                                                "returned is that of (row %d, col %d)"
+                                                % (nbad, idx[t].size, lo, la, " / ".join("(row %d, col %d)" % (x // nx, x % nx) for x in adm),
+                                                   got // nx, got % nx))
+                    ctx.violation("C11:%s:%s" % (name, "cell" if alone_wrong else "concurrent-callers"),
+                                  "%s, one sampler object on a %dx%d (ny x nx) %s map called by %d threads at the same time, round %d (%s): "
+                                  "caller %d asked a request of shape %s and %s; the same request asked again with no other call in flight "
+                                  "was answered %s"
+                                  % (name, ny, nx, label, T, r, kind, t, idx[t].shape, what, "wrongly too" if alone_wrong else "correctly"),
+                                  dict(case, lon=lo, lat=la, expected_value=adm, got_value=got, threads=T, request_shape=list(idx[t].shape)))
+    return n
+
+
 def replay_table(ctx, rec, S, gal_tools):
     """Returns the number of sampler evaluations."""
     import numpy as np
     v, nx, ny, g = rec["v"], rec["nx"], rec["ny"], rec["g"]
     grid = rec["mode"] == "grid"
     ks, js, lon, lat = angles(rec)
-    # cand[a][b] = the admissible arange-map values (1 value off the edges; up to 4 on them, padded by repetition)
-    if grid:
-        cand = np.array([[(c + c[-1:] * 4)[:4] for c in row] for row in rec["cells"]], dtype=np.int64)
-    else:
-        cand = np.array(rec["cells"], dtype=np.int64)[..., None]
+    cand = candidates(rec)
     LON, LAT = np.meshgrid(lon, lat)
-    scalar_map = np.arange(nx * ny, dtype=np.int64).reshape(ny, nx)
-    other_map = (nx * ny - 1) - scalar_map                           # a second map: same shape, different content
-    rgb_map = (3 * scalar_map[..., None] + np.arange(3)).astype(np.int32)
+    wide = rec["mode"] == "wide"
+    if wide:
+        scalar_map = arange_map(nx, ny)                                  # up to 2^22 pixels: made once per shape, read-only
+    else:
+        scalar_map = np.arange(nx * ny, dtype=np.int64).reshape(ny, nx)
+        other_map = (nx * ny - 1) - scalar_map                           # a second map: same shape, different content
+        rgb_map = (3 * scalar_map[..., None] + np.arange(3)).astype(np.int32)
     case = {"layout": v, "nx": nx, "ny": ny, "g": g, "mode": rec["mode"],
             "lon_unit": "2*pi/%d" % (4 * nx * g), "lat_unit": "pi/%d" % (4 * ny * g)}
     n = 0
@@ -452,7 +616,76 @@ def replay_table(ctx, rec, S, gal_tools):
             judge_out(name, "scalar", lambda: make(scalar_map)(ra, de), ra, de, strict if eps >= 1e-9 else relaxed, (), dec_scalar,
                       "cell", " [points %g rad from a cell edge / cell centre / pole / seam]" % eps)
 
+    def request_dtypes(name, make, galactic):
+        """wide family: TLC's table has, for every sampled column (row), its centre and the two units a quarter of a cell on
+        either side, all three with one value: every real number in that window lies in that cell, >= 1/4 cell from its edges.
+        The request arrays are given in other element types (float32, float16, big-endian, long double): each element IS a real
+        number, and those that fall in the window of the unit they render must get the window's value.  Elements that leave
+        their window (float16 on all but narrow maps, whole turns in float32 on the widest) are not asked."""
+        period, pole = 4 * nx * g, 2 * ny * g
+        ulon, ulat = 2.0 * math.pi / period, math.pi / (2.0 * pole)
+        kpos = {int(k): b for b, k in enumerate(ks)}
+        jpos = {int(j): a for a, j in enumerate(js)}
+
+        def window_centres(pos):
+            out = []
+            for k in sorted(pos):
+                c = [m for m in (k - 1, k, k + 1) if m in pos and (m - 1) in pos and (m + 1) in pos]
+                if len(c) != 1:
+                    return None
+                out.append(c[0])
+            return out
+        kc, jc = window_centres(kpos), window_centres(jpos)
+        if kc is None or jc is None or not (cand == cand[np.ix_([jpos[j] for j in jc], [kpos[k] for k in kc])]).all():
+            ctx.machinery("C11 wide table %s %dx%d: the units do not come as (centre - 1, centre, centre + 1) with one value" % (v, ny, nx))
+            return
+        lon_c, lat_c = np.array(kc, dtype=float) * ulon, np.array(jc, dtype=float) * ulat       # centre of each point's window
+        f = make(scalar_map)
+        if not galactic:
+            a0, b0 = LON.copy(), LAT.copy()
+            if not judge_out(name, "scalar", lambda: f(a0, b0), a0, b0, cand, (), dec_scalar):
+                return
+            for dt in REQUEST_DTYPES:
+                lon_d, lat_d = lon.astype(dt), lat.astype(dt)
+                keep_b = np.abs(lon_d.astype(float) - lon_c) <= 0.999 * ulon
+                keep_a = np.abs(lat_d.astype(float) - lat_c) <= 0.999 * ulat
+                if keep_b.sum() < 2 or keep_a.sum() < 1:
+                    ctx.add_note("request_dtype_tables_without_points", 1)
+                    continue
+                LONd, LATd = np.meshgrid(lon_d[keep_b], lat_d[keep_a])
+                ctx.add_note("request_dtype_points", int(LONd.size))
+                judge_out(name, "scalar", lambda: f(LONd, LATd), LONd, LATd, cand[np.ix_(keep_a, keep_b)], (), dec_scalar, "request-dtype",
+                          " [request arrays of dtype %s; every element is a number within 1/4 cell of the centre of its cell; the same "
+                          "numbers in float64 arrays are answered correctly]" % np.dtype(dt).name)
+            return
+        SkyCoord, Galactic, u = gal_tools
+        icrs = SkyCoord(l=LON * u.rad, b=LAT * u.rad, frame=Galactic).icrs
+        ra, de = icrs.ra.rad, icrs.dec.rad
+        a0, b0 = ra.copy(), de.copy()
+        if not judge_out(name, "scalar", lambda: f(a0, b0), a0, b0, cand, (), dec_scalar):
+            return
+        LONc, LATc = np.meshgrid(lon_c, lat_c)
+        for dt in REQUEST_DTYPES:
+            ra_d, de_d = ra.astype(dt), de.astype(dt)
+            back = SkyCoord(ra=ra_d.astype(float) * u.rad, dec=de_d.astype(float) * u.rad, frame="icrs").galactic    # trusted, float64
+            dl = (back.l.rad - LONc + math.pi) % (2 * math.pi) - math.pi
+            keep = (np.abs(dl) <= 0.999 * ulon - 1e-11) & (np.abs(back.b.rad - LATc) <= 0.999 * ulat - 1e-11)
+            if keep.sum() < 2:
+                ctx.add_note("request_dtype_tables_without_points", 1)
+                continue
+            ra_k, de_k = ra_d[keep], de_d[keep]
+            ctx.add_note("request_dtype_points", int(ra_k.size))
+            judge_out(name, "scalar", lambda: f(ra_k, de_k), ra_k, de_k, cand[keep], (), dec_scalar, "request-dtype",
+                      " [ICRS request arrays of dtype %s; the Galactic image of every element is within 1/4 cell of the centre of its "
+                      "cell; the same numbers in float64 arrays are answered correctly]" % np.dtype(dt).name)
+
     name = SAMPLER_OF[v]
+    if wide:
+        request_dtypes(name, getattr(S, name), False)
+        if v == "sky":
+            request_dtypes("plate_carree_galactic_sampler", S.plate_carree_galactic_sampler, True)
+        recheck_held()
+        return n
     requests = grid_renderings(rec) if grid else [(lon, lat)]
     for lon_r, lat_r in requests:
         LONr, LATr = np.meshgrid(lon_r, lat_r)
@@ -521,7 +754,10 @@ def run(ctx):
               % (SAMPLER_OF[rep["layout"]], rep["ny"], rep["nx"], rep["lon"], rep["lat"], got.tolist(), rep.get("expected_value")))
     small = [(nx, ny) for nx in range(1, 13) for ny in range(1, 13)]
     runs = []
+    wide_shapes = [(12, 5), (256, 1), (1000, 2), (4096, 1), (3, 4096), (65536, 3), (2 ** 20, 1), (3 * 2 ** 20, 1), (2, 2 ** 20), (2 ** 22, 1),
+                   (1, 2 ** 22)]
     if ctx.quick:
+        runs.append(wide_configs(wide_shapes, 100, ctx.rng))
         runs.append(configs(small, 1, "full", 10 ** 6))
         edge_shapes = [(nx, ny) for nx in (1, 2, 3, 4, 5, 7, 8, 12) for ny in (1, 2, 3, 5, 8)]
         runs.append(configs(edge_shapes, 25000, "edge", 100))
@@ -529,6 +765,8 @@ def run(ctx):
         runs.append(configs(grid_shapes, 1, "grid", 10 ** 6))
     else:
         big = [(16, 8), (24, 12), (25, 13), (32, 16), (45, 8), (48, 24), (64, 32), (100, 3), (3, 100), (128, 2)]
+        runs.append(wide_configs(wide_shapes + [(7, 7), (100, 50), (1024, 1), (1296000, 1), (2 ** 21 - 1, 2), (2 ** 22, 2), (2, 2 ** 22), (1, 1000003)],
+                                 400, ctx.rng))
         runs.append(configs(small + big + [(256, 4), (5, 200)], 1, "full", 10 ** 6))
         runs.append(configs(small, 2, "full", 10 ** 6))
         runs.append(configs([(nx, ny) for nx in range(1, 13) for ny in (1, 2, 5, 12)], 3, "full", 10 ** 6))
@@ -549,6 +787,15 @@ def run(ctx):
     futures = [tp.submit(run_tlc, cfgs) for cfgs in runs]
     for fut in futures:
         recs = fut.result()
+        # ---- several callers of one sampler object at the same time, on a few tables of the run (every layout; the largest
+        # table and some drawn from ctx.rng); the edge families' points are the full families' points moved, and are left out
+        if recs and recs[0]["mode"] != "edge":
+            for v in LAYOUTS:
+                mine = sorted((r for r in recs if r["v"] == v and len(r["ks"]) * len(r["js"]) >= 16), key=lambda r: (r["nx"] * r["ny"], r["nx"]))
+                extra = (1 if recs[0]["mode"] == "full" else 0) if ctx.quick else 4
+                for rec in mine[-1:] + [mine[ctx.rng.randrange(len(mine))] for _ in range(extra if mine else 0)]:
+                    ctx.count(concurrent_callers(ctx, rec, S, gal_tools, 9 if ctx.quick else 30))
+                    ctx.add_note("tables_asked_by_concurrent_callers", 1)
         for rec in recs:
             n = replay_table(ctx, rec, S, gal_tools)
             ctx.count(n)
